@@ -239,6 +239,10 @@ fn one_instance(kind : &str, seed : u64, with_faults : bool, stats : &mut Stats)
     {
         let o = match outcome { ReadOutcome::Rejected => "rejected", ReadOutcome::AcceptedSame => "same", ReadOutcome::AcceptedDifferent => "different", ReadOutcome::Panicked(_) => "panic" };
         stats.distinct.insert(H64::new().str(kind).str(size_class(bytes.len())).str(fault).str(pos).str(o).get());
+        // the byte order of multi-entry state files differs between processes (HashMap with
+        // RandomState inside ruler), so which entry a flipped bit lands in is not reproducible;
+        // only the fault kinds whose outcome is order-independent enter the determinism digest
+        if fault == "none" || fault == "prefix" { stats.digest_str(o); }
         stats.inc("evaluations");
     };
 
@@ -323,7 +327,8 @@ pub fn run_one(cfg : &Config, seed : u64, k : u64, stats : &mut Stats) -> Vec<Fo
         stats.sample(J::obj().set("kind", J::s(kind)).set("instance_seed", J::Str(format!("{}", seed)))
             .set("faults", J::s("round trip; every strict prefix; single-bit flips (all positions when <= 400 bytes, else 256 sampled); 64 garbage strings")));
     }
-    stats.inc("runs");
     stats.inc(&format!("c16.instances.{}", kind));
-    one_instance(kind, seed, true, stats)
+    let found = one_instance(kind, seed, true, stats);
+    stats.end_run();
+    found
 }
